@@ -1,2 +1,159 @@
--- stub driver for C15: replaced when the property's model exists
-def main : IO Unit := pure ()
+import Snel.Model.Proto
+import Snel.Model.Sequence
+open Snel Snel.Proto Snel.Sequence
+
+/-! Driver for C15. One line = one sequence-matching case.
+
+`match|prefilter F|P <timeField> <linkField> <tyA> <tyB> <limit|-> <n> <key>*n <where> <zonesA> <zonesB>`
+
+* names / strings: hex (`-` = empty); keys: hex of `scalar_to_key` ("i64:5", "str:ab", "ts:7") in
+  the iteration order of the group map observed by the harness;
+* where: `W0` | `W1 <expr>`; expr: `c <field> <op> i<int>|s<hex>` | `I <field> <n> <int>*` |
+  `S <field> <n> <hex>*` | `& e e` | `| e e` | `! e`;
+* zones: `<nzones>` then per zone `<ncols>` then per column `<name> I|S <len> <cell>*`
+  (I cells: `n` or decimal, S cells: hex).
+
+Answer: `ok <n> z.r>z.r …` in emission order (first>second row of `matched_rows`),
+`bad-order` if the given keys are not a permutation of the model's keys, `bad-op` otherwise. -/
+
+abbrev P := StateT (List String) Option
+
+def tok : P String := do
+  match (← get) with
+  | [] => failure
+  | t :: ts => set ts; pure t
+
+def pNat : P Nat := do let t ← tok; liftM (m := Option) t.toNat?
+def pInt : P Int := do let t ← tok; liftM (m := Option) t.toInt?
+def pStr : P Str := do
+  let t ← tok
+  match unhex t with
+  | some bs => pure (bs.map UInt8.toNat)
+  | none => failure
+
+def rep {α} (p : P α) : Nat → P (List α)
+  | 0 => pure []
+  | n + 1 => do let x ← p; let xs ← rep p n; pure (x :: xs)
+
+def pOp : P Op := do
+  match (← tok) with
+  | "eq" => pure .eq | "neq" => pure .neq | "gt" => pure .gt | "gte" => pure .gte
+  | "lt" => pure .lt | "lte" => pure .lte
+  | _ => failure
+
+def pLit : P Lit := do
+  let t ← tok
+  match t.toList with
+  | 'i' :: rest => match (String.ofList rest).toInt? with
+    | some v => pure (.int v)
+    | none => failure
+  | 's' :: rest => match unhex (String.ofList rest) with
+    | some bs => pure (.str (bs.map UInt8.toNat))
+    | none => failure
+  | _ => failure
+
+def pExpr : Nat → P Expr
+  | 0 => failure
+  | fuel + 1 => do
+    match (← tok) with
+    | "c" => do let f ← pStr; let op ← pOp; let v ← pLit; pure (.cmp f op v)
+    | "I" => do let f ← pStr; let n ← pNat; let vs ← rep pInt n; pure (.inI f vs)
+    | "S" => do let f ← pStr; let n ← pNat; let vs ← rep pStr n; pure (.inS f vs)
+    | "&" => do let l ← pExpr fuel; let r ← pExpr fuel; pure (.and l r)
+    | "|" => do let l ← pExpr fuel; let r ← pExpr fuel; pure (.or l r)
+    | "!" => do let e ← pExpr fuel; pure (.not e)
+    | _ => failure
+
+def pWhere : P (Option Expr) := do
+  match (← tok) with
+  | "W0" => pure none
+  | "W1" => do let e ← pExpr 64; pure (some e)
+  | _ => failure
+
+def pCellI : P Cell := do
+  let t ← tok
+  if t == "n" then pure (.int none) else
+  match t.toInt? with
+  | some v => pure (.int (some v))
+  | none => failure
+
+def pCellS : P Cell := do let s ← pStr; pure (.str s)
+
+def pColumn : P (Str × List Cell) := do
+  let name ← pStr
+  let kind ← tok
+  let len ← pNat
+  match kind with
+  | "I" => do let cs ← rep pCellI len; pure (name, cs)
+  | "S" => do let cs ← rep pCellS len; pure (name, cs)
+  | _ => failure
+
+def mkRows (zone : Nat) (cols : List (Str × List Cell)) : List Row :=
+  let n := cols.foldl (fun m c => max m c.2.length) 0
+  (List.range n).map fun i =>
+    { zone := zone, idx := i, cells := cols.filterMap fun c => (c.2[i]?).map fun cell => (c.1, cell) }
+
+def pZones : P (List Row) := do
+  let nz ← pNat
+  let zs ← rep (do let nc ← pNat; rep pColumn nc) nz
+  pure ((zs.zipIdx).flatMap fun (cols, z) => mkRows z cols)
+
+def keyString (k : Key) : List Nat :=
+  match k with
+  | .i64 v => ("i64:" ++ toString v).toUTF8.toList.map UInt8.toNat
+  | .ts v => ("ts:" ++ toString v).toUTF8.toList.map UInt8.toNat
+  | .str s => ("str:".toUTF8.toList.map UInt8.toNat) ++ s
+
+structure Case where
+  pre : Bool
+  cfg : Cfg
+  limit : Option Nat
+  order : List Str
+  as : List Row
+  bs : List Row
+
+def pCase : P Case := do
+  let kind ← tok
+  let pre ← match kind with
+    | "match" => pure false
+    | "prefilter" => pure true
+    | _ => failure
+  let link ← tok
+  let preceded ← match link with
+    | "F" => pure false
+    | "P" => pure true
+    | _ => failure
+  let tf ← pStr
+  let lf ← pStr
+  let tyA ← pStr
+  let tyB ← pStr
+  let limTok ← tok
+  let limit ← if limTok == "-" then pure none else
+    match limTok.toNat? with
+    | some n => pure (some n)
+    | none => failure
+  let n ← pNat
+  let order ← rep pStr n
+  let wh ← pWhere
+  let as ← pZones
+  let bs ← pZones
+  if !(← get).isEmpty then failure
+  pure { pre, cfg := { preceded, timeField := tf, linkField := lf, tyA, tyB, wh }, limit, order, as, bs }
+
+def showPair (p : Pair) : String := s!"{p.1.zone}.{p.1.idx}>{p.2.zone}.{p.2.idx}"
+
+def answer (line : String) : String :=
+  match (pCase.run (words line)) with
+  | none => "bad-op"
+  | some (c, _) =>
+    let as := if c.pre then prefilterA c.cfg c.as else c.as
+    let bs := if c.pre then prefilterB c.cfg c.bs else c.bs
+    let keys := keysOf c.cfg as bs
+    -- map the observed key strings back to model keys
+    let order := c.order.filterMap fun s => keys.find? fun k => keyString k = s
+    if order.length ≠ c.order.length || order.length ≠ keys.length || !(keys.all order.contains) then "bad-order"
+    else
+      let res := matchSequences c.cfg c.limit as bs order
+      " ".intercalate ("ok" :: toString res.length :: res.map showPair)
+
+def main : IO Unit := serve answer
